@@ -525,6 +525,15 @@ def test_roundtrip(case, note):
     c_a = coefs(f_ref, "coefficients")
     if c_a is not None:
         cmp_coef(c_a, "coefficients:value")
+    # real-dtype fields (what a user holding Re and Im parts separately
+    # passes): the decomposition is linear, so the coefficients of the real
+    # part plus i times those of the imaginary part are those of the field
+    c_re = coefs(np.ascontiguousarray(f_ref.real), "coefficients-real-dtype")
+    c_im = coefs(np.ascontiguousarray(f_ref.imag), "coefficients-real-dtype")
+    if c_re is not None and c_im is not None:
+        note.cls("real-dtype-field")
+        cmp_coef({k: complex(c_re[k]) + 1j * complex(c_im[k])
+                  for k in valid}, "coefficients:real-dtype-parts")
     # coefficients o reconstruct = id (on the defined modes)
     if f_a is not None:
         c2 = coefs(f_a, "coefficients")
